@@ -195,7 +195,11 @@ def random_sector_ttns(rng, tree, qntot, mmax, percent=1.0, tries=5):
 def complexify_ttns(rng, ttns):
     """Genuinely complex amplitudes: a random phase per physical basis state of every basis set (a diagonal local
     unitary, which keeps the sector and all bond labels valid).  In place; returns the TTNS."""
-    for nd in ttns.node_list:
+    nodes = list(ttns.node_list)
+    if len(nodes) > 1 and rng.random() < 0.35:
+        # mixed dtypes: only one non-root node becomes complex, the other tensors (the root among them) stay real
+        nodes = [nodes[1 + int(rng.integers(0, len(nodes) - 1))]]
+    for nd in nodes:
         a = np.array(nd.tensor, dtype=complex)
         nch = len(nd.children)
         nphys = a.ndim - nch - 1
